@@ -42,7 +42,7 @@ Proof. intros. unfold step. rewrite H, H0. reflexivity. Qed.
 
 (* frames that an error outcome passes through without stopping *)
 Definition passes_error (fr : frame) : bool :=
-  match fr with KPcall _ | KCoBottom _ _ | KScope _ => false | _ => true end.
+  match fr with KPcall _ | KCoBottom _ _ | KScope _ | KClosing (POut (OClose _)) => false | _ => true end.
 
 (* the current line after unwinding through the frames k1 *)
 Fixpoint unwind_line (k1 : list frame) (ln : Z) : Z :=
@@ -56,7 +56,7 @@ Lemma step_error_pop : forall fr v k σ tr ln cs,
   passes_error fr = true ->
   step (mkCfg (COut (OError v)) (fr :: k) σ tr ln cs) =
   inl (mkCfg (COut (OError v)) k σ tr (unwind_line [fr] ln) cs).
-Proof. intros. destruct fr; try discriminate; reflexivity. Qed.
+Proof. intros. destruct fr; try discriminate; try reflexivity. destruct p as [|[]]; try discriminate; reflexivity. Qed.
 
 (* nearest_barrier_only + error_value_intact + the `false, v` half of pcall_results:
    an error unwinds the frames up to and including the nearest barrier, and nothing
@@ -98,12 +98,12 @@ Proof. reflexivity. Qed.
 
 (* frames that neither stop an error nor hide the barrier's handler *)
 Definition plain_frame (fr : frame) : bool :=
-  match fr with KPcall _ | KCoBottom _ _ | KScope _ | KHandler => false | _ => true end.
+  match fr with KPcall _ | KCoBottom _ _ | KScope _ | KHandler | KClosing (POut (OClose _)) => false | _ => true end.
 
 Lemma plain_passes : forall k, forallb plain_frame k = true -> forallb passes_error k = true.
 Proof.
   induction k as [|fr k IH]; simpl; auto. intros H. apply andb_prop in H. destruct H as [H1 H2].
-  rewrite (IH H2). destruct fr; try discriminate; reflexivity.
+  rewrite (IH H2). destruct fr; try discriminate; try reflexivity. destruct p as [|[]]; try discriminate; reflexivity.
 Qed.
 
 Lemma find_handler_nearest : forall k1 h k2,
@@ -363,7 +363,7 @@ Lemma step_setindex_mono : forall c t kk v k, res_mono (sto c) (step_setindex c 
 Proof. intros. unfold step_setindex. brk; fin. Qed.
 Lemma resume_co_mono : forall c id args k, res_mono (sto c) (resume_co c id args k).
 Proof. intros. unfold resume_co. brk; fin. Qed.
-Lemma call_builtin_mono : forall c b args k, res_mono (sto c) (call_builtin c b args k).
+Lemma call_builtin_mono : forall c b args lua k, res_mono (sto c) (call_builtin c b args lua k).
 Proof. intros. unfold call_builtin, tab_alloc. destruct b; brk; fin; try apply resume_co_mono. Qed.
 
 Lemma step_call_mono : forall c f args lua k, res_mono (sto c) (step_call c f args lua k).
@@ -506,3 +506,72 @@ Qed.
 Theorem closing_done_resumes_exit : forall vs o k σ tr ln cs,
   step (mkCfg (CRet vs) (KClosing (POut o) :: k) σ tr ln cs) = inl (mkCfg (COut o) k σ tr ln cs).
 Proof. reflexivity. Qed.
+
+(* ------------------------------------------------------------ unwinding through to-be-closed scopes *)
+
+Definition reaches (c c' : cfg) : Prop := exists n, steps n c = inl c'.
+
+Lemma reaches_refl : forall c, reaches c c.
+Proof. intros; exists O; reflexivity. Qed.
+
+Lemma reaches_trans : forall a b c, reaches a b -> reaches b c -> reaches a c.
+Proof.
+  intros a b c [n H1] [m H2]. exists (n + m)%nat. rewrite steps_plus, H1. exact H2.
+Qed.
+
+Lemma reaches_step : forall a b, step a = inl b -> reaches a b.
+Proof. intros. exists 1%nat. simpl. rewrite H. reflexivity. Qed.
+
+(* every frame above the barrier either lets an error pass, or is a to-be-closed scope
+   whose closing method — called with the value and the error in flight, in whatever
+   state the run has reached — returns normally to its closing frame *)
+Fixpoint closers_return (e : value) (k1 rest : list frame) : Prop :=
+  match k1 with
+  | [] => True
+  | KScope v :: r =>
+      (forall σ tr ln cs, exists h vs σ' tr' ln' cs',
+          metamethod σ v ev_close = h /\ h <> VNil /\
+          reaches (mkCfg (CCall h [v; e] true) (KClosing (POut (OError e)) :: r ++ rest) σ tr ln cs)
+                  (mkCfg (CRet vs) (KClosing (POut (OError e)) :: r ++ rest) σ' tr' ln' cs'))
+      /\ closers_return e r rest
+  | fr :: r => passes_error fr = true /\ closers_return e r rest
+  end.
+
+(* nearest_barrier_only / error_value_intact for stacks that contain to-be-closed scopes:
+   the closing methods run (and may change store and trace), then the nearest barrier
+   receives `false` and the very value that was raised; frames further out are untouched *)
+Theorem error_reaches_barrier_through_scopes : forall k1 h k2 v,
+  closers_return v k1 (KPcall h :: k2) ->
+  forall σ tr ln cs, exists σ' tr' ln' cs',
+  reaches (mkCfg (COut (OError v)) (k1 ++ KPcall h :: k2) σ tr ln cs)
+          (mkCfg (CRet [VBool false; v]) k2 σ' tr' ln' cs').
+Proof.
+  induction k1 as [|fr k1 IH]; intros h k2 v H σ tr ln cs.
+  - exists σ, tr, ln, cs. apply reaches_step. reflexivity.
+  - assert (Hpass : passes_error fr = true -> closers_return v k1 (KPcall h :: k2) ->
+            exists σ' tr' ln' cs',
+              reaches (mkCfg (COut (OError v)) ((fr :: k1) ++ KPcall h :: k2) σ tr ln cs)
+                      (mkCfg (CRet [VBool false; v]) k2 σ' tr' ln' cs')).
+    { intros Hp Hr.
+      destruct (IH h k2 v Hr σ tr (unwind_line [fr] ln) cs) as (σ' & tr' & ln' & cs' & R).
+      exists σ', tr', ln', cs'. eapply reaches_trans; [|exact R].
+      apply reaches_step. apply step_error_pop. exact Hp. }
+    destruct fr; try (destruct H as [Hp Hr]; exact (Hpass Hp Hr)).
+    (* KScope v0 *)
+    destruct H as [Hc Hr].
+    destruct (Hc σ tr ln cs) as (hc & vs & σ1 & tr1 & ln1 & cs1 & Hm & Hn & R1).
+    destruct (IH h k2 v Hr σ1 tr1 ln1 cs1) as (σ' & tr' & ln' & cs' & R2).
+    exists σ', tr', ln', cs'.
+    eapply reaches_trans.
+    { apply reaches_step. cbn [app]. apply (scope_exit_by_error_calls_close v0 v hc); assumption. }
+    eapply reaches_trans; [exact R1|].
+    eapply reaches_trans; [|exact R2].
+    apply reaches_step. reflexivity.
+Qed.
+
+(* the hypothesis is satisfiable: a block frame, a scope whose value has no pending
+   obligation problem is expressed by the universally quantified premise; with no scope
+   at all it reduces to passes_error *)
+Example closers_return_example :
+  closers_return VNil [KSeq [] (mkEnv [] []) []; KCallB 3 true] [KPcall None].
+Proof. simpl. auto. Qed.
